@@ -434,4 +434,9 @@ def _binding_stmt(f, name, before):
                 for e in (t.elts if isinstance(t, ast.Tuple) else [t]):
                     if isinstance(e, ast.Name) and e.id == name:
                         best = id(st)
+        elif isinstance(st, ast.For) and st.lineno < before:
+            # `for dist, p, q in candidates(...)`: one item of the iteration binds all of them
+            for e in (st.target.elts if isinstance(st.target, ast.Tuple) else [st.target]):
+                if isinstance(e, ast.Name) and e.id == name:
+                    best = id(st)
     return best
